@@ -30,11 +30,12 @@ TRUSTED = ["modelled, not verified: NumPy/SciPy array semantics used by the Pyth
            "every integer dtype incl. labels at the dtype maximum",
            "the stack array stack_v[0..stack_ptr) of _all_connected_components is modelled as a list; uint32 "
            "UNDEFINED = -1 is modelled as an absent map entry; the C arrays are PositiveMap-backed",
-           "euler = components - holes: Full for the quad counts (quad_counts_spec), for the local change under "
-           "deletion of a pixel and for every image reducible by simple/isolated deletions (euler_reducible, value "
-           "4k); equality with components - holes is Finite (exhaustive small images) and otherwise conditional "
-           "on C05's simple_removal_topo (Partial); the executable flood-fill definition euler_spec is evaluated on "
-           "every generated case",
+           "euler = components - holes: Full (C15_euler_reducible_topological, importing C05's simple_removal_topo / "
+           "topo_counts) for every image that reduces to the empty image by deletions of simple pixels and isolated "
+           "points, simple fillings and closing of one-pixel holes; membership in that class is certified per case by "
+           "the extracted, verified search reduce_label (evidence: euler_certified_reducible / euler_not_certified); the "
+           "global lemma that every finite image is so reducible is not proved (Partial); Finite sweeps cover all "
+           "small images; the executable flood-fill definition euler_spec is evaluated on every generated case too",
            "the spanning-forest certificate for all_connected_components is computed by the Python harness but only "
            "verified by the extracted Spec.LabelGraph.acc_cert_ok (soundness proved), so it is not trusted"]
 ASSUMPTIONS = ["labels are non-negative integers; label images are rectangular and non-empty",
@@ -685,8 +686,10 @@ MANIFEST = {
         "symmetrise/lexsort/bincount/cumsum; relabel is an order-preserving renumbering onto 1..n; find_neighbors lists "
         "for each label exactly the other labels with an 8-adjacent pixel, strictly increasing, and symmetrically; "
         "color_labels gives one colour per label, background 0 and different colours to touching labels; "
-        "euler_number's shifted-plane arithmetic equals the bit-quad counts of the label's pixel set. Finite: "
-        "bit-quad count = 8-components - holes on all small images (exhaustive kernel evaluation). The model is tied "
+        "euler_number's shifted-plane arithmetic equals the bit-quad counts of the label's pixel set, and 4W = "
+        "4(components - holes), counted declaratively in the plane with C05's imported topology theorems, for every "
+        "image reducible by simple deletions/fillings, isolated-point deletions and one-pixel-hole closings (a "
+        "verified search certifies this per generated case). The model is tied "
         "to the code by exact comparison of complete outputs on every generated case (extracted OCaml, sub-sample "
         "re-evaluated by vm_compute), and the executable flood-fill specification (components, holes, adjacency, "
         "partition, proper colouring) is evaluated on the implementation's own output of every case."),
